@@ -215,7 +215,7 @@ def directed_inputs(spec, k=2):
                     if a != c:
                         out.append("{%s: %s, %s: %s}" % (a, b, c, d))
             out += ["'{\"1\": 2}'", "'a=1&b=x'", "[1, 2]", "None", "1", "'x'", "[(1, 2, 3)]", "{(1, 2): 3}", "[[1, 2]]",
-                    "{None: 1}", "MyDict(a=1)", "elem(a='1')"]
+                    "{None: 1}", "MyDict(a=1)", "elem(a='1')", "{10**5000: 1}"]
             return _dedup(out)
     if kind == "dc":
         fields = spec[2]
@@ -229,7 +229,10 @@ def directed_inputs(spec, k=2):
         name0 = fields[0][0]
         out += ["[('%s', 1)]" % name0, "'{\"%s\": 1}'" % name0, "'%s=1&zz=2'" % name0, "None", "1", "[]", "[{'%s': 1}]" % name0,
                 "{1: 2}", "{'%s': 1, 1: 2}" % name0, "{None: 1}", "[1, 2]", "MyDict(%s=1)" % name0, "elem(%s='1')" % name0,
-                "[{'%s': 1}, {'%s': 2}]" % (name0, name0)]
+                "[{'%s': 1}, {'%s': 2}]" % (name0, name0),
+                # keys named like the parameters of the generated __init__ / like Python's own
+                "{'%s': 1, '_obj_self': 2}" % name0, "{'%s': 1, '_d': {'%s': 2}}" % (name0, name0), "{'%s': 1, 'self': 2, 'cls': 3}" % name0,
+                "{'_d': 5}"]
         return _dedup(out)
     return out
 
